@@ -36,8 +36,8 @@ for _f in FEATURE_FLOOR:
 def plan(tier, seed, scale):
     n_worlds = int((200 if tier == 'quick' else 4000) * scale)
     per = 13 if tier == 'quick' else 80
-    nq = 24 if tier == 'quick' else 37
-    nx = 9 if tier == 'quick' else 12      # of which aimed families
+    nq = 26 if tier == 'quick' else 39
+    nx = 11 if tier == 'quick' else 14      # of which aimed families
     shards = []
     i = 0
     while i < n_worlds:
@@ -113,7 +113,10 @@ def run_shard(spec, res):
             for k in range(spec['queries']):
                 if k >= spec['queries'] - spec.get('exclusion', 0) and \
                         v.roots:
-                    if k % 3 == 2:
+                    if k % 4 == 3:
+                        q = queries.gen_disjoint_classes_query(rng, w, v)
+                        res.count('disjoint_classes_queries')
+                    elif k % 3 == 2:
                         q = queries.gen_shared_filter_query(rng, w, v)
                         res.count('shared_filter_queries')
                     elif k % 2:
